@@ -17,11 +17,12 @@ import (
 func init() { Registry["C19"] = C19; Registry["C09"] = C09 }
 
 func C19(c *Ctx) {
-	c.R.Explanation = "Decides structural necessary conditions of a sound verdict of the expectation tool on the SSA form of Session.Run's output-processing function: (R1) the 'satisfied' mark of an expected output is a field of the session's own Output element (written through the element's address, not a copy) and the same field of the same element is what is tested before an output is tried again, so one message arriving twice cannot satisfy two expectations' worth of countdown; (R2) after a guard ran, the candidate counts as matched only if the guard's bindings are non-nil — the accepted value is the matcher's result, nil, or a literal built from the guard's non-nil bindings; (R3) the countdown is decremented exactly once per acceptance of a non-inverted output (an inverted match returns an error first), it starts as the number of non-inverted outputs, and 'all satisfied' is only concluded after a line has been read and processed; (R4) Run reports success only if every step collected both completion signals. Timing is not decided."
+	c.R.Explanation = "Decides structural necessary conditions of a sound verdict of the expectation tool on the SSA form of Session.Run's output-processing function: (R1) the 'satisfied' mark of an expected output is a field of the session's own Output element (written through the element's address, not a copy) and the same field of the same element is what is tested before an output is tried again, so one message arriving twice cannot satisfy two expectations' worth of countdown; (R2) after a guard ran, the candidate counts as matched only if the guard's bindings are non-nil — the accepted value is the matcher's result, nil, or a literal built from the guard's non-nil bindings; (R3) the countdown is decremented exactly once per acceptance of a non-inverted output (an inverted match returns an error first), it starts as the number of non-inverted outputs, and 'all satisfied' is only concluded after a line has been read and processed; (R4) Run reports success only if every step collected both completion signals; (R5) the value a line is decoded into is created in that iteration of the read loop (json.Unmarshal merges into a map it is given, which would let one pattern be satisfied by parts of different messages). Acceptance (R2) is decided by a non-empty list, not by a non-nil one. Timing is not decided."
 	c.R.Rule("C19-R1", "E1", "the satisfied mark lives in the session's Output element", 2)
 	c.R.Rule("C19-R2", "E6", "guard verdict respected", 2)
 	c.R.Rule("C19-R3", "E3", "countdown and fail-fast", 4)
 	c.R.Rule("C19-R4", "E3", "success needs both signals of every step", 1)
+	c.R.Rule("C19-R5", "E3", "each line is decoded into a fresh value", 1)
 	run := c.fn("tools/expect", "Session", "Run")
 	if run == nil {
 		return
@@ -179,6 +180,10 @@ func C19(c *Ctx) {
 					}
 				}
 				if !okLit {
+					// a list built up from nothing by appending the guard's non-nil bindings
+					okLit = guardFiltered(newSliceWeb(F), d, exe)
+				}
+				if !okLit {
 					okG = false
 					whyG = append(whyG, "the accepted value can be "+d.String())
 				}
@@ -200,34 +205,67 @@ func C19(c *Ctx) {
 		c.R.Check(okG, "C19-R2", "Run: after a guard only its non-nil bindings count as a match", c.pos(guardCall), "accepted value is nil, the guard-less match result, or []Bindings{exe.Bs} under exe.Bs != nil", strings.Join(whyG, "; ")+": a message the guard rejected can count as the expected one")
 		// acceptance test is 'accepted != nil'
 		okT := false
-		nonNilAt := func(v ssa.Value, b *ssa.BasicBlock) bool {
+		// nonEmptyAt: at block b the slice v is known to have at least one element.  (A nil test is not enough: the
+		// matcher answers "no match" for a property-variable pattern with an empty, non-nil slice.)
+		isLenOf := func(x ssa.Value, v ssa.Value) bool {
+			cl, ok := x.(*ssa.Call)
+			if !ok {
+				return false
+			}
+			bi, isB := cl.Common().Value.(*ssa.Builtin)
+			return isB && bi.Name() == "len" && cl.Common().Args[0] == v
+		}
+		isZero := func(x ssa.Value) bool { n, ok := ssau.ConstInt(x); return ok && n == 0 }
+		nonEmptyAt := func(v ssa.Value, b *ssa.BasicBlock) bool {
 			for _, f := range flow.FactsAt(b) {
-				if bo, isB := f.Cond.(*ssa.BinOp); isB && bo.X == v && ssau.IsNilConst(bo.Y) && ((bo.Op == token.NEQ && f.True) || (bo.Op == token.EQL && !f.True)) {
+				bo, isB := f.Cond.(*ssa.BinOp)
+				if !isB {
+					continue
+				}
+				switch {
+				case bo.Op == token.LSS && isZero(bo.X) && isLenOf(bo.Y, v) && f.True, // 0 < len(v)
+					bo.Op == token.GTR && isLenOf(bo.X, v) && isZero(bo.Y) && f.True, // len(v) > 0
+					bo.Op == token.NEQ && (isLenOf(bo.X, v) && isZero(bo.Y) || isZero(bo.X) && isLenOf(bo.Y, v)) && f.True,
+					bo.Op == token.EQL && (isLenOf(bo.X, v) && isZero(bo.Y) || isZero(bo.X) && isLenOf(bo.Y, v)) && !f.True,
+					bo.Op == token.LEQ && isLenOf(bo.X, v) && isZero(bo.Y) && !f.True, // !(len(v) <= 0)
+					bo.Op == token.GEQ && isZero(bo.X) && isLenOf(bo.Y, v) && !f.True: // !(0 >= len(v))
 					return true
 				}
 			}
 			return false
 		}
-		if nonNilAt(accepted, marks[0].Block()) {
-			okT = true
-		} else {
-			// every definition that reaches the mark is non-nil where it is chosen: a slice literal, or a value tested there
-			okT = true
-			for _, da := range phiEdgesWithBlocks(accepted, marks[0].Block()) {
-				if sl, isSl := da.v.(*ssa.Slice); isSl {
-					if _, isAl := sl.X.(*ssa.Alloc); isAl {
-						continue // []Bindings{...}
+		nonEmptyLiteral := func(v ssa.Value) bool {
+			if sl, isSl := v.(*ssa.Slice); isSl {
+				if al, isAl := sl.X.(*ssa.Alloc); isAl {
+					if arr, isArr := al.Type().Underlying().(*types.Pointer).Elem().Underlying().(*types.Array); isArr && arr.Len() >= 1 && sl.High == nil {
+						return true // []Bindings{...}
 					}
 				}
-				if _, isMk := da.v.(*ssa.MakeSlice); isMk {
+			}
+			return false
+		}
+		if nonEmptyAt(accepted, marks[0].Block()) {
+			okT = true
+		} else {
+			// every definition that reaches the mark has an element where it is chosen: a slice literal, or a value tested there
+			okT = true
+			for _, da := range phiEdgesWithBlocks(accepted, marks[0].Block()) {
+				if nonEmptyLiteral(da.v) {
 					continue
 				}
-				if ssau.IsNilConst(da.v) || !(nonNilAt(da.v, da.b) || nonNilAt(da.v, marks[0].Block())) {
+				if ssau.IsNilConst(da.v) || !(nonEmptyAt(da.v, da.b) || nonEmptyAt(da.v, marks[0].Block())) {
 					okT = false
 				}
 			}
 		}
-		c.R.Check(okT, "C19-R2", "Run: an output is marked only when something was accepted", c.pos(marks[0]), "under accepted != nil", "an output can be marked satisfied without an accepted match")
+		// the guard is run on candidate #0 only where there is one
+		if ld, isLd := guardCall.Common().Args[1].(*ssa.UnOp); isLd {
+			if ia, isIA := ld.X.(*ssa.IndexAddr); isIA {
+				okIdx := nonEmptyAt(ia.X, guardCall.Block())
+				c.R.Check(okIdx, "C19-R2", "Run: the guard runs only when the matcher produced a candidate", c.pos(guardCall), "under 0 < len(candidates)", "the guard is given element 0 of a candidate list that is only known to be non-nil: the matcher answers 'no match' for a property-variable pattern with an empty non-nil list, and the tool panics (or counts the output as met)")
+			}
+		}
+		c.R.Check(okT, "C19-R2", "Run: an output is marked only when something was accepted", c.pos(marks[0]), "under 0 < len(accepted)", "an output can be marked satisfied without an accepted match: the accepted list is at most known to be non-nil, and the matcher's 'no match' can be an empty non-nil list")
 	}
 	// ---- R3 countdown
 	var dec *ssa.BinOp
@@ -272,14 +310,15 @@ func C19(c *Ctx) {
 				readCall = cl
 			}
 		})
-		okExit := false
+		okExit := true
+		nExit := 0
 		whyExit := "no 'all satisfied' exit found"
 		for _, b := range F.Blocks {
 			ret, isRet := b.Instrs[len(b.Instrs)-1].(*ssa.Return)
 			if !isRet || !ssau.IsNilConst(ret.Results[0]) {
 				continue
 			}
-			okExit = true
+			nExit++
 			zero := false
 			for _, f := range flow.FactsAt(b) {
 				if bo, isB := f.Cond.(*ssa.BinOp); isB && bo.Op == token.EQL && f.True {
@@ -298,6 +337,9 @@ func C19(c *Ctx) {
 			if readCall == nil || !readCall.Block().Dominates(b) {
 				okExit, whyExit = false, "'all satisfied' can be concluded before any line was read: a step that only forbids outputs passes whatever the subprocess prints"
 			}
+		}
+		if nExit == 0 {
+			okExit = false
 		}
 		// every output of the set is tried against the line before success is concluded
 		if Lo := flow.InnermostLoop(flow.Loops(F), matchCall.Block()); Lo != nil {
@@ -384,6 +426,49 @@ func C19(c *Ctx) {
 			okInit, whyInit = false, "an expected output is counted only under a further condition ("+strings.Join(extraInit, ", ")+"): the step can pass with that expectation never met"
 		}
 		c.R.Check(okInit, "C19-R3", "Run: countdown starts at the number of non-inverted outputs", c.P.Pos(F.Pos()), "incremented per output under !Inverted and nothing else", whyInit)
+	}
+	// ---- R5: each line is decoded into a value of its own (json.Unmarshal merges into a non-nil map it is given)
+	{
+		var readCall *ssa.Call
+		ssau.Instrs(F, func(in ssa.Instruction) {
+			if cl, ok := in.(*ssa.Call); ok && strings.HasSuffix(ssau.CalleeName(cl), "bufio.Reader).ReadBytes") {
+				readCall = cl
+			}
+		})
+		okFresh, whyFresh := false, "the line is not decoded with json.Unmarshal"
+		if readCall != nil {
+			L := flow.InnermostLoop(flow.Loops(F), readCall.Block())
+			ssau.Instrs(F, func(in ssa.Instruction) {
+				cl, ok := in.(*ssa.Call)
+				if !ok || ssau.CalleeName(cl) != "encoding/json.Unmarshal" || L == nil || !L.Blocks[cl.Block()] {
+					return
+				}
+				// only the decode of the line itself: its first operand derives from the read
+				fromLine := false
+				for _, d := range phiDefs(cl.Common().Args[0], nil, map[ssa.Value]bool{}) {
+					if ex, isEx := d.(*ssa.Extract); isEx && ex.Tuple == ssa.Value(readCall) {
+						fromLine = true
+					}
+				}
+				if !fromLine {
+					return
+				}
+				dst := cl.Common().Args[1]
+				if mi, isMI := dst.(*ssa.MakeInterface); isMI {
+					dst = mi.X
+				}
+				al, isAl := dst.(*ssa.Alloc)
+				switch {
+				case !isAl:
+					okFresh, whyFresh = false, "the decoded message is not a local variable of the line loop"
+				case !L.Blocks[al.Block()]:
+					okFresh, whyFresh = false, "the variable the line is decoded into is declared outside the per-line loop ("+c.pos(al)+"): json.Unmarshal keeps the entries of a map it is given, so the 'message' matched is the union of all lines so far and one pattern can be satisfied by properties of different messages"
+				default:
+					okFresh = true
+				}
+			})
+		}
+		c.R.Check(okFresh, "C19-R5", "Run: every line is decoded into a fresh value", c.P.Pos(F.Pos()), "the json.Unmarshal target is a variable created in that iteration of the read loop", whyFresh)
 	}
 	// ---- R4
 	okBoth := false
@@ -575,4 +660,70 @@ func C09(c *Ctx) {
 	} else {
 		c.R.Break("C09-R3: core.State not found")
 	}
+}
+
+// guardFiltered: the list v is built from nothing (nil, make with length 0,
+// x[:0]) by appending guard executions' Bs at points where that Bs is known to
+// be non-nil.
+func guardFiltered(w *sliceWeb, v ssa.Value, exe ssa.Value) bool {
+	seen := map[ssa.Value]bool{}
+	appends := 0
+	var ok func(v ssa.Value) bool
+	ok = func(v ssa.Value) bool {
+		if seen[v] {
+			return true
+		}
+		seen[v] = true
+		if ssau.IsNilConst(v) {
+			return true
+		}
+		switch x := v.(type) {
+		case *ssa.Phi:
+			for _, e := range x.Edges {
+				if !ok(e) {
+					return false
+				}
+			}
+			return true
+		case *ssa.MakeSlice:
+			k, isC := ssau.ConstInt(x.Len)
+			return isC && k == 0
+		case *ssa.Slice:
+			k, isC := ssau.ConstInt(x.High)
+			return isC && k == 0 && x.High != nil
+		case *ssa.Call:
+			b, isB := x.Common().Value.(*ssa.Builtin)
+			if !isB || b.Name() != "append" {
+				return false
+			}
+			elems, spread := appended(x)
+			if spread != nil || len(elems) != 1 {
+				return false
+			}
+			base, is := ssau.LoadOfField(elems[0], prog.Abs("core"), "Execution", "Bs")
+			if !is {
+				return false
+			}
+			if ex, isEx := base.(*ssa.Extract); !isEx || ex.Index != 0 {
+				return false
+			}
+			nonNil := false
+			for _, f := range flow.FactsAt(x.Block()) {
+				if bo, isBO := f.Cond.(*ssa.BinOp); isBO && ssau.IsNilConst(bo.Y) && ((bo.Op == token.NEQ && f.True) || (bo.Op == token.EQL && !f.True)) {
+					if b2, is2 := ssau.LoadOfField(bo.X, prog.Abs("core"), "Execution", "Bs"); is2 && b2 == base {
+						nonNil = true
+					}
+				}
+			}
+			if !nonNil {
+				return false
+			}
+			appends++
+			return ok(x.Common().Args[0])
+		}
+		return false
+	}
+	_ = w
+	_ = exe
+	return ok(v)
 }
